@@ -15,6 +15,7 @@ MODULES["C03"] += ["TjdProps.C03Example", "TjdProps.C03b"]
 MODULES["C04"].append("TjdProps.C03b")
 MODULES["C15"].append("TjdProps.C15b")
 MODULES["C10"].append("TjdProps.C10b")
+MODULES["C09"].append("TjdProps.C09b")
 
 
 def main() -> int:
